@@ -530,8 +530,8 @@ func step38(state, input, output interface{}) (bool, interface{}) {
 func (w *world38) model() porcupine.Model {
 	init := st38{locked: w.initLock, pw: w.initPw}
 	return porcupine.Model{
-		Init: func() interface{} { return init },
-		Step: step38,
+		Init:              func() interface{} { return init },
+		Step:              step38,
 		DescribeOperation: func(in, out interface{}) string { return in.(*rec38).String() },
 	}
 }
